@@ -36,10 +36,14 @@ Inductive out :=
 | OFile (id : nat) (has_close has_iter : bool) (content : str) (ty : str)  (* has .read *)
 | OIter (id : nat) (has_close : bool) (items : list item) (ty : str)     (* any other iterable *)
 | OOther (ty : str) (ejson : str)
+| OEscape (to_catchall : bool)
+    (* not a value of a program: produced by the model where the Python code does not return but lets an
+       exception through (see "exception classes" below); to_catchall = wsgi()'s `except Exception` catches it *)
 with item :=
 | IYield (o : out)                                              (* next() returns o *)
 | IRaiseHttp (is_err : bool) (r : resp)                         (* next() raises an HTTPResponse *)
-| IRaiseExc (ejson : str)                                       (* next() raises; ejson = json.dumps(repr(exc)) *)
+| IRaiseExc (ejson : str)                                       (* next() raises an ordinary exception; ejson = json.dumps(repr(exc)) *)
+| IRaiseEsc (to_catchall : bool)                                (* next() raises an exception that _cast lets through *)
 (* an HTTPResponse object after its constructor ran:
    code/line = _status_code/_status_line as the status setter left them,
    btext = str(body) (error.html's {e.body}), bjson = json.dumps(body) or
@@ -82,7 +86,8 @@ Inductive mut :=
 Inductive hres :=
 | HRet (o : out)
 | HRaiseHttp (is_err : bool) (r : resp)
-| HRaiseExc (ejson : str).
+| HRaiseExc (ejson : str)          (* an ordinary exception: `except Exception` in _handle turns it into a 500 *)
+| HRaiseEsc (to_catchall : bool).  (* an exception _handle lets through (KeyboardInterrupt ..., or not an Exception) *)
 
 (* a callable: handler, before/after hook, route hook, partial 404 hook *)
 Record hprog := mkH { h_muts : list mut; h_res : hres }.
@@ -95,7 +100,8 @@ Inductive routing :=
 | RRaise (ejson : str).                    (* route resolution itself raised (e.g. int() on a 4301-digit wildcard) *)
 
 (* result of a custom error handler (app.error(code)) *)
-Inductive ehres := ERet (o : out) | ERaise.
+(* ERaise true: an exception wsgi()'s `except Exception` catches (the catch-all answers); false: one it lets through *)
+Inductive ehres := ERet (o : out) | ERaise (to_catchall : bool).
 
 (* per-request constants taken from the environ *)
 Record cenv := mkEnv {
@@ -129,7 +135,8 @@ Inductive imode := MBytes | MStr.
 Inductive wret :=
 | WList (chunks : list str)                                   (* [] or [bytes] *)
 | WWrap (id : nat) (has_close : bool) (content : str)         (* wsgi.file_wrapper(f) / WSGIFileWrapper(f) *)
-| WIter (m : imode) (first : str) (rest : list item) (close : option nat).
+| WIter (m : imode) (first : str) (rest : list item) (close : option nat)
+| WEscape.      (* _cast did not return: an exception that no clause of _cast / wsgi catches is propagating *)
                                    (* chain([first], it) | chain([first], encoding genexpr) | _closeiter of one of them;
                                       first is a byte string in both modes *)
 
@@ -421,6 +428,7 @@ Definition falsy (o : out) : bool :=
 Definition type_str (o : out) : str :=
   match o with
   | OFile _ _ _ _ ty | OIter _ _ _ ty | OOther ty _ => ty
+  | OEscape _ => []
   | OFalsy => lit "<class 'NoneType'>"
   | OStr _ => lit "<class 'str'>"
   | OBytes _ => lit "<class 'bytes'>"
@@ -459,6 +467,7 @@ Fixpoint peek (items : list item) (close : option nat) (st : rstate) : step_res 
            end
   | IRaiseHttp e r :: _ => SCont (OHttp e r) st                 (* except HTTPResponse as rs: first = rs *)
   | IRaiseExc ej :: _ => SCont (OHttp true (err_unhandled ej)) st
+  | IRaiseEsc b :: _ => SCont (OEscape b) st                    (* except (KeyboardInterrupt, ...): raise / not an Exception *)
   end.
 
 (* one pass through the body of "while True" after the loops_cnt guard *)
@@ -478,7 +487,11 @@ Definition step_body (o : out) (st : rstate) : step_res :=
   | OHttp true r =>                                             (* isinstance(out, HTTPError) *)
       let st1 := apply r st in
       match eh (r_code r) with
-      | Some h => match h r with ERet o' => SCont o' st1 | ERaise => SRaise end
+      | Some h => match h r with
+                  | ERet o' => SCont o' st1
+                  | ERaise true => SRaise
+                  | ERaise false => SDone WEscape st1 false
+                  end
       | None => match default_eh r st1 with
                 | Some (p, st2) => SCont (OStr p) st2
                 | None => SRaise
@@ -491,6 +504,8 @@ Definition step_body (o : out) (st : rstate) : step_res :=
       else peek (file_items content) None st
   | OIter id hc items _ => peek items (if hc then Some id else None) st
   | OOther _ ej => SCont (OHttp true (err_unhandled ej)) st     (* iter(out): TypeError *)
+  | OEscape true => SRaise                                      (* the exception goes on to wsgi()'s except clauses *)
+  | OEscape false => SDone WEscape st false
   end.
 
 (* loops_cnt += 1; if loops_cnt > 1000: ... (ombott.py:306-310) *)
@@ -526,7 +541,7 @@ Definition cast_fuel : nat := 1002.
 (* 6. Ombott._handle / Ombott.handler / emit (ombott.py:235-292)       *)
 (* ------------------------------------------------------------------ *)
 
-Inductive exn := XHttp (is_err : bool) (r : resp) | XExc (ejson : str).
+Inductive exn := XHttp (is_err : bool) (r : resp) | XExc (ejson : str) | XEsc (to_catchall : bool).
 
 Definition run_prog (h : hprog) (st : rstate) : rstate * (out + exn) :=
   let st1 := apply_muts (h_muts h) st in
@@ -534,6 +549,7 @@ Definition run_prog (h : hprog) (st : rstate) : rstate * (out + exn) :=
   | HRet o => (st1, inl o)
   | HRaiseHttp e r => (st1, inr (XHttp e r))
   | HRaiseExc j => (st1, inr (XExc j))
+  | HRaiseEsc b => (st1, inr (XEsc b))
   end.
 
 (* [hook() for hook in hooks]: in order, stops at the first one that raises *)
@@ -624,6 +640,7 @@ Definition handle_from (st0 : rstate) (p : program) : list event * rstate * out 
            | inl o => o
            | inr (XHttp e r) => OHttp e r                        (* except HTTPResponse as resp: return resp *)
            | inr (XExc j) => OHttp true (err_handle500 j)         (* except Exception as err500 *)
+           | inr (XEsc b) => OEscape b                            (* except (KeyboardInterrupt, ...): raise *)
            end in
   (evB ++ evM ++ evA, st3, o).
 
@@ -645,6 +662,7 @@ Definition close_events (w : wret) : list event :=
   | WWrap id hc _ => if hc then [EvClose id] else []
   | WIter _ _ _ (Some id) => [EvClose id]
   | WIter _ _ _ None => []
+  | WEscape => []
   end.
 
 Definition l_catchall : str := Eval compute in lit "500 INTERNAL SERVER ERROR".
@@ -655,7 +673,9 @@ Definition critical_page (path : str) : str :=
 
 Inductive wsgi_res :=
 | WsOk (ev : list event) (w : wret) (st : rstate) (wrote_cl : bool)   (* wsgi returned w *)
-| WsEscaped (ev : list event)                     (* an exception left Ombott.wsgi *)
+| WsEscaped (ev : list event)                     (* an exception left Ombott.wsgi out of its except clause *)
+| WsPassed (ev : list event)                      (* an exception no clause of _handle/_cast/wsgi catches went through:
+                                                     KeyboardInterrupt, SystemExit, MemoryError, or not an Exception *)
 | WsOutOfFuel.
 
 Definition catchall (ev : list event) (st : rstate) : wsgi_res :=
@@ -666,6 +686,8 @@ Definition catchall (ev : list event) (st : rstate) : wsgi_res :=
        | None => WsEscaped ev'
        end.
 
+Definition is_escape (w : wret) : bool := match w with WEscape => true | _ => false end.
+
 (* everything after self._handle(environ) returned; [catch] = the except clause of wsgi() *)
 Definition wsgi_tail_gen (catch : list event -> rstate -> wsgi_res)
            (evH : list event) (st : rstate) (o : out) : wsgi_res :=
@@ -673,6 +695,7 @@ Definition wsgi_tail_gen (catch : list event -> rstate -> wsgi_res)
   | COutOfFuel => WsOutOfFuel
   | CRaise => catch evH st
   | CDone w st' wrote =>
+      if is_escape w then WsPassed evH else
       let '(evC, w') :=
         if nobody (s_code st') || e_head env then (close_events w, WList []) else ([], w) in
       match headerlist st' with
@@ -722,6 +745,7 @@ Definition consume (w : wret) (st : rstate) : list event :=
       let '(c, raised) := iter_rest m st rest in
       EvBody (CBytes first :: c) :: (if raised then [EvIterRaise] else [])
       ++ match cl with Some id => [EvClose id] | None => [] end
+  | WEscape => []
   end.
 
 (* the complete observation of one request *)
@@ -729,6 +753,7 @@ Definition trace (p : program) : option (list event) :=
   match wsgi p with
   | WsOk ev w st _ => Some (ev ++ consume w st)
   | WsEscaped ev => Some ev
+  | WsPassed ev => Some ev
   | WsOutOfFuel => None
   end.
 
@@ -780,6 +805,44 @@ Definition set_status (a : sarg) : sres :=
         end
   end.
 End Status.
+
+(* ------------------------------------------------------------------ *)
+(* 8b. Exception classes                                                *)
+(* ------------------------------------------------------------------ *)
+
+(* An exception class is given by the names of the classes in its __mro__ (an except clause
+   matches subclasses).  What happens to an exception raised by a handler, a hook, the first
+   next() of a handler iterable or an error handler is decided by the except clauses of
+   _handle / _cast / wsgi; the class tuples of their bare `except ...: raise` clauses are read
+   from the source (Gen.passthrough_handle, _cast, _wsgi). *)
+Definition mro_in (names : list str) (mro : list str) : bool :=
+  existsb (fun c => existsb (str_eqb c) names) mro.
+Definition is_exception (mro : list str) : bool := existsb (str_eqb (lit "Exception")) mro.
+
+(* once it reaches wsgi(): `except <passthrough>: raise`, then `except Exception` (the catch-all) *)
+Definition to_catchall (mro : list str) : bool :=
+  is_exception mro && negb (mro_in Gen.passthrough_wsgi mro).
+
+Inductive fate :=
+| FOrdinary                        (* caught by `except Exception` right there: a 500 error object *)
+| FEscape (to_catchall : bool).    (* let through by _handle / _cast *)
+
+(* raised while _handle runs hooks, routing, the handler (ombott.py:299-305) *)
+Definition fate_handle (mro : list str) : fate :=
+  if mro_in Gen.passthrough_handle mro then FEscape (to_catchall mro)
+  else if is_exception mro then FOrdinary
+  else FEscape (to_catchall mro).
+(* raised by iter(out) / the first next() in _cast (ombott.py:366-372); StopIteration there means
+   "no more items" and is not a raise of the model *)
+Definition fate_cast (mro : list str) : fate :=
+  if mro_in Gen.passthrough_cast mro then FEscape (to_catchall mro)
+  else if is_exception mro then FOrdinary
+  else FEscape (to_catchall mro).
+
+Definition hres_of_raise (mro : list str) (ejson : str) : hres :=
+  match fate_handle mro with FOrdinary => HRaiseExc ejson | FEscape b => HRaiseEsc b end.
+Definition item_of_raise (mro : list str) (ejson : str) : item :=
+  match fate_cast mro with FOrdinary => IRaiseExc ejson | FEscape b => IRaiseEsc b end.
 
 (* ------------------------------------------------------------------ *)
 (* 9. Correspondence interface                                         *)
@@ -836,6 +899,10 @@ Definition dec_item_with (d : list Z -> option (out * list Z)) (l : list Z) : op
                 | None => None
                 end
   | 2%Z :: r => match dec_str r with Some (j, r') => Some (IRaiseExc j, r') | None => None end
+  | 3%Z :: r => match dec_pair (dec_list dec_str) dec_str r with       (* an exception of a given class *)
+                | Some ((mro, j), r') => Some (item_of_raise mro j, r')
+                | None => None
+                end
   | _ => None
   end.
 
@@ -898,6 +965,10 @@ Definition dec_hres (fuel : nat) (l : list Z) : option (hres * list Z) :=
                 | None => None
                 end
   | 2%Z :: r => match dec_str r with Some (j, r') => Some (HRaiseExc j, r') | None => None end
+  | 3%Z :: r => match dec_pair (dec_list dec_str) dec_str r with
+                | Some ((mro, j), r') => Some (hres_of_raise mro j, r')
+                | None => None
+                end
   | _ => None
   end.
 
@@ -927,7 +998,8 @@ Inductive ehspec :=
 | EhConst (o : out)      (* returns a fixed value *)
 | EhBody                 (* returns err.body *)
 | EhSame                 (* returns err itself (the 1000-iteration guard) *)
-| EhRaise.
+| EhRaise                (* raises an ordinary exception *)
+| EhRaiseCls (mro : list str).
 
 Definition dec_ehspec (fuel : nat) (l : list Z) : option (ehspec * list Z) :=
   match l with
@@ -935,6 +1007,7 @@ Definition dec_ehspec (fuel : nat) (l : list Z) : option (ehspec * list Z) :=
   | 1%Z :: r => Some (EhBody, r)
   | 2%Z :: r => Some (EhSame, r)
   | 3%Z :: r => Some (EhRaise, r)
+  | 4%Z :: r => match dec_list dec_str r with Some (mro, r') => Some (EhRaiseCls mro, r') | None => None end
   | _ => None
   end.
 
@@ -943,7 +1016,8 @@ Definition eh_of_table (t : list (Z * ehspec)) (code : Z) : option (resp -> ehre
   | Some (_, EhConst o) => Some (fun _ => ERet o)
   | Some (_, EhBody) => Some (fun r => ERet (r_body r))
   | Some (_, EhSame) => Some (fun r => ERet (OHttp true r))
-  | Some (_, EhRaise) => Some (fun _ => ERaise)
+  | Some (_, EhRaise) => Some (fun _ => ERaise true)
+  | Some (_, EhRaiseCls mro) => Some (fun _ => ERaise (to_catchall mro))     (* nothing in _cast catches it *)
   | None => None
   end.
 
@@ -969,6 +1043,7 @@ Definition enc_res (r : wsgi_res) : list Z :=
   match r with
   | WsOk ev w st _ => 0%Z :: enc_list enc_event (ev ++ consume w st)
   | WsEscaped ev => 1%Z :: enc_list enc_event ev
+  | WsPassed ev => 2%Z :: enc_list enc_event ev
   | WsOutOfFuel => [9%Z]
   end.
 Definition enc_wsgi env eh (p : program) : list Z := enc_res (wsgi env eh p).
